@@ -58,6 +58,8 @@ def _py_distance_rules(ctx, m, F, rules):
 
 def _wp(ctx, m, kir, rules):
     F = kern2d.load(m, 'dtaidistance.dtw', 'warping_paths', consts={'keep_int_repr': ('bool', kir)})
+    if 'rec' in rules:
+        kern.rule_length_diff_exit(ctx, F.name, F.file, F.prologue.events, F.amap, F.outer_line)
     if 'band' in rules:
         kern.rule_band(ctx, F)
     if 'rec' in rules:
@@ -82,6 +84,8 @@ def C01(ctx):
     m = model(ctx.repo)
     F = _kernels(ctx, m)[0]
     _py_distance_rules(ctx, m, F, ['band', 'rec', 'prune', 'psi', 'clamp', 'dom'])
+    kern.rule_result_cell(ctx, F)
+    kern.rule_length_diff_exit(ctx, F.name, F.file, F.prologue.events, F.amap, F.outer_line)
     tables.rule_settings_defaults(ctx, m)
     misc.rule_dispatch(ctx, m, 'dtaidistance.innerdistance', 'inner_dist_cls', 'inner_dist', documented=[])
     tables.rule_inner_dist_table(ctx, m)
@@ -100,6 +104,8 @@ def C02(ctx):
     for F in ks:
         if F.lang == 'c':
             _py_distance_rules(ctx, m, F, ['band', 'rec', 'prune', 'psi', 'dom'])
+            kern.rule_result_cell(ctx, F)
+            kern.rule_length_diff_exit(ctx, F.name, F.file, F.prologue.events, F.amap, F.outer_line)
         else:
             with ctx.scoped(lambda r, t: False):
                 _py_distance_rules(ctx, m, F, ['rec'])
@@ -152,6 +158,7 @@ def C04(ctx):
     wps.rule_wps_writers(ctx, m, affinity=False, tier=ctx.tier)
     wps.rule_pyx_direct_matrix(ctx, m)
     wps.rule_wps_epilogue(ctx, m)
+    wps.rule_wps_exits(ctx, m)
     wps.rule_wps_readers(ctx, m, affinity=False)
     ctx.floor('R-REC', 6, 'python matrix facts')
 
@@ -331,6 +338,7 @@ def C17(ctx):
     F = kern2d.load(m, 'dtaidistance.dp', 'dp', consts={'window': ('var', 'W')}, nonnull={'W'})
     kern.rule_band(ctx, F)
     kern2d.rule_rec_nw(ctx, F)
+    kern.rule_length_diff_exit(ctx, F.name, F.file, F.prologue.events, F.amap, F.outer_line)
     pyshape.rule_alignment_tables(ctx, m)
     misc.rule_return_arity(ctx, m, [('dtaidistance.dp', 'dp'), ('dtaidistance.alignment', 'needleman_wunsch')])
     ctx.floor('R-REC', 2, 'dp scheme')
